@@ -80,5 +80,13 @@ func init() {
 		}})
 	register(&PropDef{ID: "C14", Runs: map[string]int{"quick": 100000, "thorough": 100000},
 		Rule: concRule + "; built with -race; values are pointers to structs initialised by plain writes just before the store and read field by field (checksum) by every task that obtains them; 2-8 tasks; oracle: zero race reports whose stacks include the code under test or the payload accessors, intact payloads",
-		Gen:  func(seed uint64, tier string) *Case { return &Case{Conc: genConc("C14", seed, tier)} }})
+		Gen: func(seed uint64, tier string) *Case {
+			r := simrtRNG(seed ^ 0xC14)
+			if r.Float64() < 0.004 {
+				// caches dropped and collected while their janitors tick: the finalizer
+				// goroutine and the janitor must be ordered by synchronisation
+				return &Case{Special: &SpecialCase{Kind: "gc", Seed: seed, NonReplayable: true, Race: true, Caches: 1 + r.Intn(4)}}
+			}
+			return &Case{Conc: genConc("C14", seed, tier)}
+		}})
 }
